@@ -35,6 +35,8 @@ def check_bank(ctx, pid="C21"):
 
     c21x.data_path_indices(ctx, comp, pid)
     ctx.floor(pid, "MemoryBank local signals read", kinds.read_locals_driven(ctx, pid, comp, "MemoryBank"), 4, comp.site)
+    ctx.floor(pid, "MemoryBank per-port loops", kinds.index_space_agreement(ctx, pid, comp, "MemoryBank"), 6, comp.site)
+    ctx.floor(pid, "MemoryBank address fields", kinds.address_fields(ctx, pid, REL, "MemoryBank"), 1, comp.site)
     for ex in comp.configs:
         cn = cfg_name(ex)
         req, resp, wr = (need_body(ex, n, pid, comp.site) for n in ("read_req", "read_resp", "write"))
@@ -180,6 +182,9 @@ def check_bank(ctx, pid="C21"):
             cases.append((f_not(REQ), lambda x: out_addr is not None and x == ("i", out_addr, IDX), "otherwise the tracked address of the pending response (re-read every cycle)"))
         check_table(ctx, f"{pid}.read-address", comp.site, f"MemoryBank.read_port.addr[{cn}]", t_ad, cases)
         ctx.check(out_addr is not None, f"{pid}.address-tracking", req.site, f"MemoryBank.read_output_addr[{cn}]", found=tstr(out_addr) if out_addr else "not stored", required="the request stores its address (needed by read_on_resp forwarding)")
+        from . import c21y
+
+        ctx.count(f"{pid}:data-path-transfers", c21y.transfers(ctx, comp, ex, cn, req, bool(ror), pid))
         # ---- shapes of delay registers (F-SHAPE)
         depth_shape = pat("range(self.depth)")
         for oid, o in ex.objects.items():
